@@ -118,6 +118,7 @@ type parser struct {
 	scanOffset int
 	ch         rune
 	set        []rune
+	setEscape  bool // whether the last parsed escape denotes a character set (\d, \p{..}) rather than a single rune
 	err        ParseError
 }
 
@@ -466,7 +467,7 @@ func (p *parser) parseClass(opts CharsetOptions) charset {
 				continue
 			case '\\':
 				cs := p.parseEscape(opts, false /*standalone*/)
-				if !cs.oneRune() {
+				if p.setEscape || !cs.oneRune() {
 					// Note: parseEscape uses p.set as a temporary buffer. Make a copy.
 					subs = append(subs, append(charset(nil), cs...))
 					continue
@@ -482,7 +483,7 @@ func (p *parser) parseClass(opts CharsetOptions) charset {
 			return nil
 		case '\\':
 			cs := p.parseEscape(opts, false /*standalone*/)
-			if !cs.oneRune() {
+			if p.setEscape || !cs.oneRune() {
 				r = append(r, cs...)
 				continue
 			}
@@ -505,7 +506,7 @@ func (p *parser) parseClass(opts CharsetOptions) charset {
 		var hi rune
 		if p.ch == '\\' {
 			cs := p.parseEscape(opts, false /*standalone*/)
-			if !cs.oneRune() {
+			if p.setEscape || !cs.oneRune() {
 				p.error("invalid character class range", loStart, p.offset)
 				return nil
 			}
@@ -549,6 +550,12 @@ func (p *parser) parseEscape(opts CharsetOptions, standalone bool) charset {
 	start := p.offset
 	p.next() // skip \
 	var r rune
+	p.setEscape = false
+	switch p.ch {
+	case 'p', 'P', 'd', 'D', 'w', 'W', 's', 'S':
+		// Note: some of the sets contain exactly one rune (\p{Zl}), so their size tells nothing.
+		p.setEscape = true
+	}
 	switch p.ch {
 	case '0', '1', '2', '3', '4', '5', '6', '7':
 		for i := 0; i < 3; i++ {
